@@ -1,6 +1,7 @@
 package mv
 
 import (
+	"bytes"
 	"encoding/json"
 	"fmt"
 
@@ -62,6 +63,9 @@ type GenSpec struct {
 	KeepFiles  bool
 	CloseTail  bool // close collection/store with handles open, re-read, close handles in any order
 	KeyPoolMax int
+	Alloc         bool // build some operations through Alloc/AllocSet/...
+	Oversize      bool // rejected oversize operations and limit-sized keys
+	OversizeValue bool // also 2^28-byte values (slow)
 	ChildPct   int // probability (%) that a top-level batch mentions children; default 35
 	ReopenCfg  bool // reopen may change options
 	Compaction []int // choices; nil = {0,1,2}
@@ -80,6 +84,7 @@ type genState struct {
 	batchNo  int
 	deadKids map[string]bool // path-qualified child names deleted once
 	excluded int
+	usedMaxKey bool
 }
 
 func genKeyPool(t *rapid.T, hostile bool, max int) [][]byte {
@@ -125,6 +130,14 @@ func (g *genState) genValue(t *rapid.T) []byte {
 	case 2:
 		return rapid.SliceOfN(rapid.Byte(), 1, 48).Draw(t, "vb")
 	default:
+		if chance(t, "pagesize", 40) {
+			n := rapid.SampledFrom([]int{4095, 4096, 4097, 4076, 8192, 1}).Draw(t, "vlen")
+			v := bytes.Repeat([]byte{byte('A' + g.batchNo%26)}, n)
+			if rapid.Bool().Draw(t, "magictail") && n > 12 {
+				copy(v[n-12:], "0m1o2s0m1o2s")
+			}
+			return v
+		}
 		h := []byte(rapid.SampledFrom(hostileStrings).Draw(t, "hv"))
 		return append(h, []byte(fmt.Sprintf("#%d", g.batchNo))...)
 	}
@@ -179,7 +192,32 @@ func (g *genState) genOps(t *rapid.T, cur *Node, maxN int) []KV {
 			kv.Op = OpMerge
 			kv.V = append([]byte(fmt.Sprintf("m%d", g.batchNo)), rapid.SliceOfN(rapid.ByteRange('a', 'c'), 0, 2).Draw(t, "mt")...)
 		}
+		if g.spec.Alloc && chance(t, "alloc", 40) {
+			kv.Alloc = true
+		}
 		ops = append(ops, kv)
+	}
+	if g.spec.Oversize && chance(t, "oversize", 4) {
+		// an operation the library must reject, in the middle of the batch
+		big := KV{Op: OpSet, Reject: true}
+		if g.spec.OversizeValue && chance(t, "bigval", 30) {
+			big.K = []byte("oversize-value")
+			big.V = make([]byte, 1<<28)
+		} else {
+			big.K = make([]byte, 1<<24)
+			big.V = []byte("x")
+		}
+		pos := 0
+		if len(ops) > 0 {
+			pos = rapid.IntRange(0, len(ops)).Draw(t, "bigpos")
+		}
+		ops = append(ops[:pos], append([]KV{big}, ops[pos:]...)...)
+	}
+	if g.spec.Oversize && !g.usedMaxKey && chance(t, "maxkey", 2) {
+		// the largest key the library must accept
+		g.usedMaxKey = true
+		k := bytes.Repeat([]byte{0xfe}, 1<<24-1)
+		ops = append(ops, KV{Op: OpSet, K: k, V: []byte("maxkey")})
 	}
 	return ops
 }
